@@ -463,7 +463,10 @@ func c07Run(c c07Case) []*core.Violation {
 }
 
 var c07AuthTypes = []string{"", "PLAIN", "PLAIN-NOENC", "LOGIN", "LOGIN-NOENC", "CRAM-MD5", "XOAUTH2", "SCRAM-SHA-1", "SCRAM-SHA-1-PLUS", "SCRAM-SHA-256", "SCRAM-SHA-256-PLUS", "AUTODISCOVER", "CUSTOM"}
-var c07AuthLists = []string{"PLAIN LOGIN", "PLAIN LOGIN CRAM-MD5 XOAUTH2 SCRAM-SHA-1 SCRAM-SHA-256 SCRAM-SHA-1-PLUS SCRAM-SHA-256-PLUS", "LOGIN", "XOAUTH2 PLAIN", "CRAM-MD5 PLAIN", "", "-"}
+var c07AuthLists = []string{"PLAIN LOGIN", "PLAIN LOGIN CRAM-MD5 XOAUTH2 SCRAM-SHA-1 SCRAM-SHA-256 SCRAM-SHA-1-PLUS SCRAM-SHA-256-PLUS",
+	// a server that announces, next to real mechanisms, tokens that happen to be the library's own names
+	// of its authentication types
+	"PLAIN LOGIN PLAIN-NOENC LOGIN-NOENC AUTODISCOVER CUSTOM NOAUTH", "LOGIN", "XOAUTH2 PLAIN", "CRAM-MD5 PLAIN", "", "-"}
 
 func c07Cases(full bool) []c07Case {
 	var out []c07Case
@@ -478,7 +481,7 @@ func c07Cases(full bool) []c07Case {
 				for _, b := range behs {
 					lists := c07AuthLists
 					if !full {
-						lists = c07AuthLists[:2]
+						lists = c07AuthLists[:3]
 					}
 					if auth == "" {
 						lists = lists[:1]
@@ -600,7 +603,7 @@ func c07LifecycleCases() []c07Case {
 
 func c07Describe() {
 	rec := core.Rec("C07")
-	rec.Rule = "real TCP sessions (default dialers, the client's DEFAULT tls.Config with the harness CA installed as the only system root through SSL_CERT_FILE) of DialAndSend against the reference server on 127.0.0.1 (a localhost name by go-mail's rule) and 127.0.0.2 (not): product of TLS policy {mandatory, default (no option), opportunistic, none, implicit} x 13 auth types x host x server behaviour {STARTTLS advertised or not; STARTTLS answered 220 / 454 / 502 / garbage; handshake ok / certificate for another name / certificate of an untrusted CA / garbage bytes; plain-text speaker on the implicit-TLS port; implicit TLS configured with a fallback port (WithSSLPort) where the primary port refuses and a plain-text server listens on the fallback port 25} x advertised AUTH lists (2 in quick, 7 in thorough, incl. only-cleartext mechanisms, empty, absent). Default-port cases (no port option: a port policy leaves a fallback port 25 behind, a later policy setter makes TLS mandatory, the primary port 587 is closed and a plain-text server answers on 25). Policy changes between two connections of one Client (implicit TLS switched on, a weak policy made mandatory), and a *tls.Config without ServerName that was first given to a Client for another host. Lifecycle cases: the policy established by a sequence of setter calls (SetTLSPolicy, SetTLSPortPolicy, SetSSL, SetSSLPort after other policies were set first, with or without a weaker policy option) instead of an option, and the judged DialAndSend being the SECOND connection of one Client whose first connection (DialWithContext + Close) met a well-behaved server at the same address offering STARTTLS with a valid certificate and AUTH PLAIN LOGIN. Fresh random 16-character credentials per case. Both tiers enumerate their product completely (quick with 2 AUTH lists, thorough with 7). TestC07Names adds, over in-memory connections, 18 host names around go-mail's localhost rule (exact names, names that merely start/end with or contain 'localhost', 127.x look-alikes) x {none, opportunistic without STARTTLS} x {PLAIN, LOGIN, AUTODISCOVER} x 3 AUTH lists. " +
+	rec.Rule = "real TCP sessions (default dialers, the client's DEFAULT tls.Config with the harness CA installed as the only system root through SSL_CERT_FILE) of DialAndSend against the reference server on 127.0.0.1 (a localhost name by go-mail's rule) and 127.0.0.2 (not): product of TLS policy {mandatory, default (no option), opportunistic, none, implicit} x 13 auth types x host x server behaviour {STARTTLS advertised or not; STARTTLS answered 220 / 454 / 502 / garbage; handshake ok / certificate for another name / certificate of an untrusted CA / garbage bytes; plain-text speaker on the implicit-TLS port; implicit TLS configured with a fallback port (WithSSLPort) where the primary port refuses and a plain-text server listens on the fallback port 25} x advertised AUTH lists (3 in quick, 8 in thorough, incl. only-cleartext mechanisms, empty, absent, and a list that carries the library's own type names PLAIN-NOENC / LOGIN-NOENC / AUTODISCOVER / CUSTOM / NOAUTH as mechanism tokens). Default-port cases (no port option: a port policy leaves a fallback port 25 behind, a later policy setter makes TLS mandatory, the primary port 587 is closed and a plain-text server answers on 25). Policy changes between two connections of one Client (implicit TLS switched on, a weak policy made mandatory), and a *tls.Config without ServerName that was first given to a Client for another host. Lifecycle cases: the policy established by a sequence of setter calls (SetTLSPolicy, SetTLSPortPolicy, SetSSL, SetSSLPort after other policies were set first, with or without a weaker policy option) instead of an option, and the judged DialAndSend being the SECOND connection of one Client whose first connection (DialWithContext + Close) met a well-behaved server at the same address offering STARTTLS with a valid certificate and AUTH PLAIN LOGIN. Fresh random 16-character credentials per case. Both tiers enumerate their product completely (quick with 3 AUTH lists, thorough with 8). TestC07Names adds, over in-memory connections, 18 host names around go-mail's localhost rule (exact names, names that merely start/end with or contain 'localhost', 127.x look-alikes) x {none, opportunistic without STARTTLS} x {PLAIN, LOGIN, AUTODISCOVER} x 3 AUTH lists. " +
 		"Oracle on the byte tap: under mandatory policy the cleartext consists of EHLO/HELO, STARTTLS and QUIT lines only, no session continues after a handshake with an invalid certificate, nothing but QUIT (or TLS records) follows a failed handshake; implicit TLS: first byte is a TLS record and no SMTP verb in clear; under every policy the PLAIN/LOGIN password never appears in the cleartext raw, hex or base64 (3 alignments) unless the type is *-NOENC or the host is localhost; AUTODISCOVER never issues AUTH PLAIN/LOGIN/XOAUTH2 on an unencrypted connection. " +
 		"Non-trivial: the server deviates from the happy path or the policy is not 'none'. Distinct by the case tuple."
 	rec.Assumptions = []string{"Go's root loader honours SSL_CERT_FILE/SSL_CERT_DIR (Linux)", "127.0.0.2 is bindable on the loopback interface"}
@@ -782,7 +785,7 @@ func TestC07Names(t *testing.T) {
 	for _, host := range c07Hosts {
 		for _, pol := range []string{"none", "opportunistic"} {
 			for _, auth := range []string{"PLAIN", "LOGIN", "AUTODISCOVER"} {
-				for _, al := range []string{"PLAIN LOGIN", "LOGIN PLAIN XOAUTH2", "PLAIN LOGIN CRAM-MD5"} {
+				for _, al := range []string{"PLAIN LOGIN", "LOGIN PLAIN XOAUTH2", "PLAIN LOGIN CRAM-MD5", "PLAIN LOGIN PLAIN-NOENC LOGIN-NOENC", "LOGIN LOGIN-NOENC"} {
 					i++
 					if i%core.Shards != core.Shard {
 						continue
